@@ -69,11 +69,19 @@ def series(case):
     p2 = case.get("pow2")
     if p2 and spec.get("as") != "int":
         a = a * 2.0 ** p2  # exact rescaling: the answer does not depend on the unit of the series
+    dec = case.get("decay")
+    if dec and spec.get("as") != "int":
+        # geometric envelope over `dec` decades (free-vibration tail, tapered record): later half cycles are many orders
+        # of magnitude below the first ones
+        a = a * 10.0 ** (-dec * np.arange(len(a)) / max(1, len(a) - 1))
     a = np.where(np.abs(a) < FLUSH, 0.0, a)
     if spec.get("as") == "int":
         peak = float(np.max(np.abs(a)))
         if 0 < peak < 8:
             a = a * (8.0 / peak)
+    if case.get("negzero") and spec.get("as") != "int":
+        # IEEE negative zero is a valid exact zero (rounding of small negative values, a polarity flip, '-0.000' in a text file)
+        a = np.where((a == 0) & (np.arange(len(a)) % 2 == case["negzero"] % 2), -0.0, a)
     arg = gen.as_container(spec, a)
     a = np.array(arg, dtype=float)
     if isinstance(arg, np.ndarray):
@@ -108,6 +116,10 @@ def _rec_cases(draw, max_n=5000):
         case["levels"] = draw(st.integers(2, 12))
     if draw(st.integers(0, 5)) == 0:
         case["pow2"] = draw(st.sampled_from([-300, -200, -60, -30, 60, 200, 300]))
+    elif draw(st.integers(0, 4)) == 0:
+        case["decay"] = draw(st.integers(10, 60))
+    if draw(st.integers(0, 3)) == 0:
+        case["negzero"] = draw(st.integers(1, 2))
     return case
 
 
@@ -246,6 +258,13 @@ def _enum(tier, shard, nshards):
             for tup in itertools.product(alphabet, repeat=n):
                 if idx % nshards == shard:
                     yield {"v": list(tup)}
+                idx += 1
+    # IEEE negative zero as a symbol of its own: {-1, -0.0, +0.0, 1} up to length 7 (symbol "z" = -0.0)
+    for n in range(1, 8):
+        for tup in itertools.product((-1, "z", 0, 1), repeat=n):
+            if "z" in tup:
+                if idx % nshards == shard:
+                    yield {"v": [(-0.0 if t == "z" else float(t)) for t in tup], "negzero": True}
                 idx += 1
 
 
